@@ -590,3 +590,29 @@ def array_variants(e):
     if v:
         return [v]
     return None
+
+
+def unfold_struct_calls(ctx, e, depth=0):
+    """Rewrite `call g(args).f` — g a function of the crate whose result is one struct literal — to that literal's field f
+    with g's parameters replaced by the arguments (bottom-up, a few levels): a method that builds its result by delegating
+    to a sibling (`self.to_shape().join(&other.to_shape())`) is read like the sibling's formula."""
+    from . import sym as S_
+    if not isinstance(e, tuple) or not e or depth > 4:
+        return e
+    e = tuple(unfold_struct_calls(ctx, x, depth) if isinstance(x, tuple) else x for x in e)
+    if e[0] == "field":
+        base = S_.strip_refs(e[1])
+        if base[0] == "agg" and base[1] == "tuple" and str(e[2]).isdigit() and int(e[2]) < len(base[3]):
+            return base[3][int(e[2])]
+        if base[0] == "agg" and base[1] == "adt" and len(base) > 4 and str(e[2]) in [str(n) for n in base[4]]:
+            return base[3][[str(n) for n in base[4]].index(str(e[2]))]
+        if base[0] == "call":
+            bs = [b for b in ctx.facts.fns() if b.cn == base[1] and b.kind in ("fn", "method")]
+            if len(bs) == 1:
+                r = S_.strip_refs(ctx.sym(bs[0]).local(0))
+                if r[0] == "agg" and r[1] == "adt" and str(e[2]) in [str(n) for n in r[4]]:
+                    comp = r[3][[str(n) for n in r[4]].index(str(e[2]))]
+                    args = base[2]
+                    comp = subst(comp, lambda y: args[y[1] - 1] if y[0] == "arg" and 0 < y[1] <= len(args) else None)
+                    return unfold_struct_calls(ctx, comp, depth + 1)
+    return e
